@@ -16,7 +16,7 @@ type extraFn struct {
 	Ver    int
 	Name   string
 	Recv   int      // 1: method of the version's object type
-	Params []string // "string" | "int" | "float" | "bool" | "bytes" | "any" | "strs" | "func" | "obj" | "objptr"
+	Params []string // "string" | "int" | "float" | "bool" | "bytes" | "any" | "strs" | "vstrs" | "func" | "obj" | "objptr"
 	// Call returns the results and the byte buffers it passed in (the
 	// caller's own buffers, which it is free to reuse afterwards).
 	// objs: the objects for parameters of the version's own type, in order.
@@ -183,6 +183,45 @@ func scribble(rs []any) {
 			continue
 		}
 		scribbleValue(reflect.ValueOf(r), 0)
+	}
+}
+
+// reorder reverses the slices a caller was handed (a caller that sorts what it
+// got): every element stays a legal value, only the positions change.
+func reorder(rs []any) {
+	for _, r := range rs {
+		if r == nil {
+			continue
+		}
+		if _, isErr := r.(error); isErr {
+			continue
+		}
+		reorderValue(reflect.ValueOf(r), 0)
+	}
+}
+
+func reorderValue(v reflect.Value, depth int) {
+	defer func() { recover() }()
+	if depth > 3 || !v.IsValid() {
+		return
+	}
+	switch v.Kind() {
+	case reflect.Slice:
+		if v.IsNil() || v.Len() < 2 {
+			return
+		}
+		sw := reflect.Swapper(v.Interface())
+		for i, j := 0, v.Len()-1; i < j; i, j = i+1, j-1 {
+			sw(i, j)
+		}
+	case reflect.Map:
+		for _, k := range v.MapKeys() {
+			reorderValue(v.MapIndex(k), depth+1)
+		}
+	case reflect.Pointer, reflect.Interface:
+		if !v.IsNil() {
+			reorderValue(v.Elem(), depth+1)
+		}
 	}
 }
 
